@@ -71,7 +71,7 @@ CHECKS = {
     "C09": {
         "text": "The model marks every panicking primitive of the Rust (slice indexing, unwrap) with an outcome Panic; theorems show it unreachable for "
                 "all inputs for load_bytes, the three decoders, sharks recover and adss recover. The Rust is run under catch_unwind on the malformed "
-                "streams; a panic is reported with the input. ppoprf loaders / eval / verify / group_shares: correspondence and panic capture.",
+                "streams; a panic is reported with the input. WASM grouping call: proved total. ppoprf loaders / eval / verify: total functions in the model, correspondence and panic capture on the Rust. Client::unblind on an undecodable answer panics (refuted clause, known finding C09/unblind-undecodable).",
         "note": "Partial: aborts inside dependencies are outside the model.",
     },
     "C06": {
